@@ -20,6 +20,10 @@ def main():
             from . import ledger_main
 
             rc = ledger_main.replay(a.prop, a.replay) if a.replay else ledger_main.run(a.prop, a.tier)
+        elif a.prop in ("C11", "C12"):
+            from . import sheet_main
+
+            rc = sheet_main.replay(a.prop, a.replay) if a.replay else sheet_main.run(a.prop, a.tier)
         else:
             common.die_machinery(f"no check for {a.prop}")
     except common.MachineryError as exc:
